@@ -57,7 +57,7 @@ def textOf (a : Adapter) (s : GQ) (d : Derived) (o : Opts) : Option (List Char) 
   else if a.printer = "print_active_power" then some (printActivePower s.re o.precision)
   else if a.printer = "print_complex" then some (printComplex s.re s.im d.absV d.angle unit o.precision o.polar o.deg)
   else if a.printer = "print_sinosoidal" then
-    some (printSinusoidal d.absV d.phase d.phaseDeg d.w d.wHz unit o.precision o.sin o.deg o.hertz)
+    some (printSinusoidal s.re d.absV d.phase d.phaseDeg d.w d.wHz unit o.precision o.sin o.deg o.hertz)
   else if a.printer = "print_abs" then some (printAbs d.absV unit o.precision)
   else none
 
